@@ -21,4 +21,6 @@ def run(tier):
     wave3.always_redirects_rule(run, f, "C24-ALWAYS-REDIRECTS")
     # clauses added for the wave-2 seeds (rules/wave2.py; DESIGN 12a)
     wave3.suspender_popped_rule(run, f, "C24-SUSPENDER-POPPED")
+    # clauses added for the wave-2 seeds (rules/wave2.py; DESIGN 12a)
+    wave3.error_from_syscall_rule(run, f, "C24-ERROR-FROM-SYSCALL")
     return run.finish()
